@@ -71,7 +71,10 @@ theorem cutoff_removes_exactly (o : TrimOpts) (es : List Entry) (e : Entry) :
 /-- text reports, step 2: what is shown is a prefix — of length min(nodecount, #survivors) when
 nodecount > 0, everything otherwise — of the survivors arranged by the active order; that
 arrangement is a permutation of the survivors, and it is sorted whenever the comparator is a strict
-total order (C08's theorem about graph.go's comparators). -/
+total order (C08's theorem about graph.go's comparators).
+NB: `StrictTotal (order o)` cannot be met (`strictTotal_unsatisfiable` below: the comparators do not
+read the entry id), so the LAST conjunct is vacuous; the unconditional sortedness statement is
+`topN_is_prefix_of_sorted_regenerated_order` in the section "composed with C08". -/
 theorem topN_is_prefix_of_sorted (o : TrimOpts) (es : List Entry) :
     trimText o es <+: sortBy (order o) (afterCutoff o es) ∧
     (sortBy (order o) (afterCutoff o es)).Perm (afterCutoff o es) ∧
